@@ -1,6 +1,7 @@
 (* C04 — Decoder totality: no panic on any bytes; accepted input is canonical and valid.
    Statements only; proofs in Packet/RoundTrip.v, Packet/PrimProofs.v.  Nothing else. *)
-From MQ Require Import Base.Prelude Packet.Prim Packet.PrimProofs Packet.Props Packet.Packets Packet.Decode Packet.RoundTrip.
+From MQ Require Import Base.Prelude Packet.Prim Packet.PrimProofs Packet.Props Packet.Packets Packet.Decode Packet.RoundTrip
+                       Packet.Canonical Packet.Canonical2.
 
 (* the reference decoder is a total Gallina function on every byte list (structural recursion,
    explicit fuel = input length; there is no error outcome other than None); whatever it accepts
@@ -15,6 +16,22 @@ Theorem C04_accepted_reparses : forall v idw b,
   packet_ok v idw b = true -> decode v idw (encode v idw b) = Some b.
 Proof. exact packet_roundtrip. Qed.
 Print Assumptions C04_accepted_reparses.
+
+(* ACCEPTED INPUT IS CANONICAL, for every byte list and all 29 kinds: whatever the reference decoder
+   accepts as a control packet IS the reference encoding of the packet it returns — no second byte
+   string decodes to the same packet, no non-minimal length, no slack — and that packet satisfies
+   the builders' rules *)
+Theorem C04_decode_canonical : forall v idw l b,
+  all_bytes l = true -> decode v idw l = Some b -> encode v idw b = l /\ packet_ok v idw b = true.
+Proof. exact decode_canonical. Qed.
+Print Assumptions C04_decode_canonical.
+
+(* the same for a property block on its own *)
+Theorem C04_props_canonical : forall l ps t,
+  all_bytes l = true -> dec_props l = Some (ps, t) ->
+  l = enc_props ps ++ t /\ forallb prop_ok ps = true /\ N.of_nat (length (enc_props_body ps)) <= VBI_MAX.
+Proof. exact props_canonical. Qed.
+Print Assumptions C04_props_canonical.
 
 (* accepted input is canonical: a Variable Byte Integer / length-prefixed field that is accepted IS
    the encoding of its value (so non-minimal integers are never accepted), for every byte list *)
